@@ -2,6 +2,7 @@
 import os
 
 import common as C
+import optsdom
 
 
 def build(ctx):
@@ -78,11 +79,14 @@ def run(ctx):
         ctx.diag.append("correspondence could not run: " + out[-300:])
     summ = oracle(ctx, ctx.scale(15000, 150000))
     ctx.add_summary(summ, "snapshot oracle")
+    optsdom.run(ctx, "C14")
     if ctx.tier == "thorough":
         ctx.cov["forbidden_vernacular"] = C.forbidden_vernacular()
 
 
 def replay(path):
+    if optsdom.is_case(path):
+        return optsdom.replay(path)
     ok, out = C.build_harness()
     if not ok:
         print(out[-2000:])
